@@ -2320,11 +2320,17 @@ def glom(target, spec, **kwargs):
                     err = e
             except Exception:  # maybe exception can't be re-created
                 err = e
-            err._set_wrapped(e)
         else:
             err = GlomError.wrap(e)
         if isinstance(err, GlomError):
-            err._finalize(scope[LAST_CHILD_SCOPE])
+            try:
+                if isinstance(e, GlomError):
+                    err._set_wrapped(e)
+                err._finalize(scope[LAST_CHILD_SCOPE])
+            except Exception:
+                # the error object refuses the trace (attribute assignment
+                # disabled, e.g. a frozen dataclass): it goes out as it came in
+                raise e
         else:  # wrapping failed, fall back to default behavior
             raise
 
